@@ -27,9 +27,15 @@ func TestMain(m *testing.M) {
 // known classifies disagreements caused by listed findings of the dependency sorter.
 func known(p gobatch.Program, got, want gobatch.Result) string { return "" }
 
+// VERIF_C16_ASSUME_FIXED (comma separated ids) switches the exclusion of the listed findings
+// off, to try a proposed fix in a scratch worktree before known_findings.json changes.
+func assumeFixed(id string) bool {
+	return strings.Contains(","+os.Getenv("VERIF_C16_ASSUME_FIXED")+",", ","+id+",")
+}
+
 func TestAnyOrder(t *testing.T) {
-	Opts.NoMutualFuncs = rec.Known("F-C16-1")
-	Opts.NoMethodInInit = rec.Known("F-C16-2")
+	Opts.NoMutualFuncs = rec.Known("F-C16-1") && !assumeFixed("F-C16-1")
+	Opts.NoMethodInInit = rec.Known("F-C16-2") && !assumeFixed("F-C16-2")
 	gobatch.Run(t, gobatch.Config{
 		Rec: rec, Name: "c16", N: rec.Scale(300, 3000),
 		Gen: Generate, Known: known,
